@@ -13,7 +13,7 @@ if [ $# -gt 0 ]; then patches="$*"; else patches="$(ls benign/*.patch)"; fi
 bad=0
 for p in $patches; do
     git -C /repo apply "$(realpath "$p")" || { echo "SKIP $p"; continue; }
-    for prop in C04 C08 C09 C11 C12 C19; do
+    for prop in ${SPEC_PROPS:-C04 C08 C09 C11 C12 C19}; do
         out=$(VERIF_NO_EVIDENCE=1 ./check "$prop" quick 2>&1); code=$?
         if [ $code -ne 0 ] || echo "$out" | grep -q "^VIOLATION"; then
             echo "ALARM $prop on $p (exit $code) :: $(echo "$out" | grep -A1 '^VIOLATION\|HARNESS' | head -3 | tr '\n' ' ' | cut -c1-300)"; bad=$((bad+1))
